@@ -180,8 +180,11 @@ Definition effective_filter (lo : lopts) : option (fop * ffield) + lerr :=
 
 (* ---------------------------------------------------------------- paging: checker counters *)
 Record counters := { c_max : bool; c_page : Z; c_padded : Z }.
+(* Go's int is 64 bits wide and MaxElements * Offset is computed in it: the product wraps *)
+Definition wrap64 (z : Z) : Z := (z + 9223372036854775808) mod 18446744073709551616 - 9223372036854775808.
+
 Definition new_counters (lo : lopts) : counters :=
-  {| c_max := Z.gtb (lo_max lo) 0; c_page := lo_max lo; c_padded := lo_max lo * lo_offset lo |}.
+  {| c_max := Z.gtb (lo_max lo) 0; c_page := lo_max lo; c_padded := wrap64 (lo_max lo * lo_offset lo) |}.
 
 (* CheckLimitAndUpdate *)
 Definition check_limit (c : counters) : bool * counters :=
